@@ -22,6 +22,8 @@ RULE = ("matrices over GF(2): exhaustive up to 3x3, then random shapes 1x1 .. 60
         "(sieve-like: heavy low rows + sparse tail with 1/i decay, uniform: weight-w columns or density 1/2), planted coranks 0..100, "
         "duplicate and zero columns, empty matrix, zero-row matrices; Gauss answers are compared with the Lean model up to 700 columns; "
         "Lanczos is repeated over its own randomness and every returned basis is recomputed by the Lean model from (B, Y); "
+        "half of the Lanczos runs at verbosity Info/Verbose (library default Info); a missing Lanczos answer is accepted only when the oracle "
+        "finds rank(B B^T B) < 64, and at least 90 % of the runs on matrices with corank 1..100 must return a vector; "
         "non-trivial = at least 2 columns; distinct by request line")
 MODELLED = [
     "matrix::gf2::kernel_gauss line by line on bit lists: leading-zero index, first minimum, the three swaps, xor of column and coefficient "
@@ -35,7 +37,9 @@ UNMODELLED = [
     "the theorem lanczos_final holds for EVERY block Y, the iteration is an arbitrary producer of Y (exported by the hook and replayed)",
     "bitvec_simd::BitVec and wide::u64x4 storage (SIMD xor, leading_zeros, the raw pointer read of the first lane) are modelled as bit lists",
     "the order produced by sort_unstable_by_key in qs_optimize (only a permutation of the coordinate list; the product is proved independent of it)",
-    "termination of kernel_lanczos (genblock loops forever when B^T B has rank < 64) is outside the property",
+    "termination of kernel_lanczos: genblock loops forever when rank(B B^T B) < 64 (no block Y with a full-rank Gram matrix exists); one such "
+    "matrix is run on purpose (3 s limit) and a missing answer is accepted by the oracle ONLY when it computes rank(B B^T B) < 64 itself; "
+    "final_step calls kernel_lanczos only with more than 5000 rows each holding at least 2 entries, where such a rank is not reachable in practice",
 ]
 
 LS = 64
@@ -166,6 +170,29 @@ def sparse_matrix(case):
 
 
 _rank_cache = {}
+
+# Lanczos answers judged by the oracle (both profiles together): see the floor in `oracle`
+FLOOR = {"runs": 0, "nonempty": 0, "corank0_runs": 0, "corank_gt100_runs": 0, "corank_gt100_nonempty": 0,
+         "vectors_judged": 0, "hang_rank_lt_64": 0}
+
+
+def extra_coverage():
+    return {"lanczos_nonempty_floor": dict(FLOOR, rule="runs on matrices with 1 <= corank <= 100: at least 90 % must return a vector")}
+
+
+def rank_bbtb(cols, nrows):
+    """rank of B * (B^T B) for the matrix with columns `cols`"""
+    rows = [0] * nrows
+    for j, x in enumerate(cols):
+        for i in bits_of(x):
+            rows[i] |= 1 << j
+    a = []
+    for x in cols:                      # column j of A = B^T B is the xor of the rows of B selected by column j
+        acc = 0
+        for i in bits_of(x):
+            acc ^= rows[i]
+        a.append(acc)
+    return rank_of([mat_vec(cols, v) for v in a])
 
 
 def rank_cached(line, cols):
@@ -350,7 +377,9 @@ def lanczos_case(cols, nrows, run, fu=True, timeout=None, shuffle_rng=None, repe
     if shuffle_rng is not None:
         for c in sp:
             shuffle_rng.shuffle(c)
-    return Case(f"gf2_lanczos {nrows} {len(cols)} {enc_sparse(sp)} {run}", k=False, timeout=timeout,
+    # the library default is Info: half of the runs print the progress messages (stderr is discarded)
+    verb = ("silent", "info", "verbose", "info")[run % 4]
+    return Case(f"gf2_lanczos {nrows} {len(cols)} {enc_sparse(sp)} {run} {verb}", k=False, timeout=timeout,
                 tag="fu" if fu else "")
 
 
@@ -568,14 +597,20 @@ def oracle(case, ans):
         return None
     if op == "gf2_lanczos":
         nrows, ncols, sp = sparse_matrix(case)
+        cols = [col_int_parity(c) for c in sp]
         if ans == "hang":
-            return None          # termination is not part of C14 (reported in klass)
+            # documented non-termination: genblock needs a block Y with rank(Gram(B A Y)) = 64, A = B^T B, which
+            # does not exist when rank(B B^T B) < 64. Any other missing answer is a failure.
+            r3 = rank_bbtb(cols, nrows)
+            if r3 < LS:
+                FLOOR["hang_rank_lt_64"] += 1
+                return None
+            return f"no answer within the time limit although rank(B B^T B) = {r3} >= 64"
         if ans == "panic" and nrows < LS:
-            return None          # documented: fewer than 64 rows index out of the dense copy
+            return None          # documented: fewer than 64 rows index out of the dense copy (theorem optMul_few_rows)
         parts = ans.split(" ")
         if len(parts) != 2:
             return f"no value returned ({ans})"
-        cols = [col_int_parity(c) for c in sp]
         ker = dec_vecs(parts[0])
         y = dec_words(parts[1])
         if len(y) != ncols:
@@ -587,6 +622,22 @@ def oracle(case, ans):
                 return "vector longer than the number of columns"
             if mat_vec(cols, v) != 0:
                 return "returned vector is not in the kernel"
+        # the property allows an empty answer, the check must not become vacuous: on matrices with 1 <= corank <= 100
+        # every measured run returns at least one vector (quick 114/114, 112/112, thorough 616/616); floor 90 %
+        corank = ncols - rank_cached(case.line, cols)
+        if 1 <= corank <= 100:
+            FLOOR["runs"] += 1
+            if ker:
+                FLOOR["nonempty"] += 1
+            elif FLOOR["runs"] >= 10 and FLOOR["nonempty"] < 0.9 * FLOOR["runs"]:
+                return (f"empty answer on a matrix of corank {corank}: only {FLOOR['nonempty']} of {FLOOR['runs']} runs on "
+                        "matrices with corank 1..100 returned a vector (floor 90 %)")
+        elif corank == 0:
+            FLOOR["corank0_runs"] += 1
+        else:
+            FLOOR["corank_gt100_runs"] += 1
+            FLOOR["corank_gt100_nonempty"] += 1 if ker else 0
+        FLOOR["vectors_judged"] += len(ker)
         return None
     if op in ("gf2_optmul", "gf2_spmul"):
         nrows, ncols, sp = sparse_matrix(case)
